@@ -5,6 +5,7 @@ package main
 
 import (
 	"fmt"
+	"strings"
 	"go/token"
 	"go/types"
 	"sort"
@@ -70,7 +71,7 @@ func (f *Frame) invariants(li *loopInfo, st *State, env *loopEnv, positive bool,
 		se.lenv = env
 		se.positive = positive
 		se.site = site
-		se.wit = inv.Wit
+		se.wit, se.witParam = inv.Wit, inv.WitParam
 		se.presite = "pre"
 		t := se.evalBool(inv.Expr)
 		label := inv.Label
@@ -121,6 +122,7 @@ func (f *Frame) enterLoop(li *loopInfo, st *State, r *Term, edges []edge) *State
 		f.havocTop(st)
 	} else {
 		f.havocComps(st, mod.comps)
+		f.assumeFrameSinceEntry(st, mod.comps)
 	}
 	for a, paths := range mod.locals {
 		cur, ok := st.locals[a]
@@ -306,7 +308,7 @@ func (f *Frame) addTargetMods(root ssa.Value, first ssa.Value, ms *modSet) {
 	switch u := rt.Underlying().(type) {
 	case *types.Slice:
 		es := f.sortOf(u.Elem())
-		f.addComp(ms, compE(es), ArrS(SInt, ArrS(SInt, es)))
+		f.addComp(ms, f.eName(u.Elem()), ArrS(SInt, ArrS(SInt, es)))
 	case *types.Pointer:
 		et := u.Elem()
 		if _, ok := et.Underlying().(*types.Struct); ok {
@@ -322,11 +324,11 @@ func (f *Frame) addTargetMods(root ssa.Value, first ssa.Value, ms *modSet) {
 		}
 		if at, ok := et.Underlying().(*types.Array); ok {
 			es := f.sortOf(at.Elem())
-			f.addComp(ms, compE(es), ArrS(SInt, ArrS(SInt, es)))
+			f.addComp(ms, f.eName(at.Elem()), ArrS(SInt, ArrS(SInt, es)))
 			return
 		}
 		s := f.sortOf(et)
-		f.addComp(ms, compP(s), ArrS(SInt, s))
+		f.addComp(ms, f.pName(et), ArrS(SInt, s))
 	default:
 		ms.top = true
 	}
@@ -335,10 +337,10 @@ func (f *Frame) addTargetMods(root ssa.Value, first ssa.Value, ms *modSet) {
 func (f *Frame) addMapMods(mt *types.Map, ms *modSet, dom, val bool) {
 	ks, vs := f.sortOf(mt.Key()), f.sortOf(mt.Elem())
 	if dom {
-		f.addComp(ms, compMD(ks, vs), ArrS(SInt, ArrS(ks, SBool)))
+		f.addComp(ms, f.mdName(mt.Key(), mt.Elem()), ArrS(SInt, ArrS(ks, SBool)))
 	}
 	if val {
-		f.addComp(ms, compMV(ks, vs), ArrS(SInt, ArrS(ks, vs)))
+		f.addComp(ms, f.mvName(mt.Key(), mt.Elem()), ArrS(SInt, ArrS(ks, vs)))
 	}
 }
 
@@ -359,17 +361,17 @@ func (f *Frame) instrMods(in ssa.Instruction, ms *modSet) {
 				}
 			} else if at, ok := et.Underlying().(*types.Array); ok {
 				es := f.sortOf(at.Elem())
-				f.addComp(ms, compE(es), ArrS(SInt, ArrS(SInt, es)))
+				f.addComp(ms, f.eName(at.Elem()), ArrS(SInt, ArrS(SInt, es)))
 			} else {
 				s := f.sortOf(et)
-				f.addComp(ms, compP(s), ArrS(SInt, s))
+				f.addComp(ms, f.pName(et), ArrS(SInt, s))
 			}
 		} else {
 			ms.locals[x] = append(ms.locals[x], nil)
 		}
 	case *ssa.MakeSlice:
 		es := f.sortOf(f.subst(x.Type()).Underlying().(*types.Slice).Elem())
-		f.addComp(ms, compE(es), ArrS(SInt, ArrS(SInt, es)))
+		f.addComp(ms, f.eName(f.subst(x.Type()).Underlying().(*types.Slice).Elem()), ArrS(SInt, ArrS(SInt, es)))
 	case *ssa.MakeMap:
 		f.addMapMods(f.subst(x.Type()).Underlying().(*types.Map), ms, true, false)
 	case *ssa.Convert:
@@ -386,13 +388,13 @@ func (f *Frame) callMods(cc *ssa.CallCommon, ms *modSet) {
 		case "append":
 			st := f.subst(cc.Args[0].Type()).Underlying().(*types.Slice)
 			es := f.sortOf(st.Elem())
-			f.addComp(ms, compE(es), ArrS(SInt, ArrS(SInt, es)))
+			f.addComp(ms, f.eName(st.Elem()), ArrS(SInt, ArrS(SInt, es)))
 		case "delete":
 			f.addMapMods(f.subst(cc.Args[0].Type()).Underlying().(*types.Map), ms, true, false)
 		case "copy":
 			st := f.subst(cc.Args[0].Type()).Underlying().(*types.Slice)
 			es := f.sortOf(st.Elem())
-			f.addComp(ms, compE(es), ArrS(SInt, ArrS(SInt, es)))
+			f.addComp(ms, f.eName(st.Elem()), ArrS(SInt, ArrS(SInt, es)))
 		case "clear":
 			ms.top = true
 		}
@@ -416,7 +418,20 @@ func (f *Frame) callMods(cc *ssa.CallCommon, ms *modSet) {
 			callee = mc.Fn.(*ssa.Function)
 		}
 		if callee == nil {
+			if _, isParam := cc.Value.(*ssa.Parameter); isParam && f.contract != nil && f.contract.PureCallbacks {
+				return
+			}
 			ms.top = true
+			return
+		}
+	}
+	if !f.ctx.eng.inModule(callee) && (f.ctx.eng.externConfined(callee) || strings.HasPrefix(fullName(callee), "sort.")) {
+		if _, hasModel := externModels[fullName(callee)]; !hasModel || strings.HasPrefix(fullName(callee), "sort.") {
+			ef := &effects{comps: ms.comps}
+			f.ctx.eng.confinedEffects(callee, cc, f, ef)
+			if ef.top {
+				ms.top = true
+			}
 			return
 		}
 	}
